@@ -1,7 +1,7 @@
 """NFA-side rule groups over nfa_builder: NFA-OUT / B-OPOS / TERM-PARENT (outputs pass),
 NFA-FAIL / NFA-LM / TERM-FAILW (fail passes), NFA-LF / VALID-* / STAT-NS / VAL-ADD (add),
 NFA-DISPATCH (builders)."""
-from . import core
+from . import core, cond
 from .core import Callee, walk, show, mk_phi
 from .view import FnView, pnorm, mk_payload, OPTION, RESULT
 from .pat import m, ANY, V, K, Par, C, F, E, P, B, Phi, OneOf, members, strip_iter
@@ -281,7 +281,7 @@ def _fail_pass(ctx, R, NR, b):
     ret, pushes = _queue_terms(root, b)
     # queue consumption: q[qi], qi = phi{0, qi+1}
     idx_reads = []
-    for vw, bi, c, tj in fv.calls(lambda c: core.callee_base(c.key) == "core::ops::Index::index"):
+    for vw, bi, c, tj in fv.calls(lambda c: core.callee_base(c.key) in ("core::ops::Index::index", "core::slice::get")):
         cont = vw.op(tj["args"][0])
         if cont[0] == "var" and core.same(cont, ret):
             idx_reads.append((bi, vw.op(tj["args"][1])))
@@ -657,6 +657,23 @@ def _nfa_lf(ctx, NR, b, fv, want):
                       "tested state index %s" % show(st_idx), show(st_idx))
             ctx.check(b.in_cycle(ibi), "NFA-LF", b, "shadow-test-every-step", b.loc(ibi),
                       "the shadow test must be made at every step of the descent (inside the per-label loop)")
+        # ... and unconditionally: under leftmost-first no path through one iteration may bypass it (evaluated under the
+        # assumption is_leftmost_first() == true, every other condition left open)
+        pulls = [bi for vw, bi, c, tj in fv.calls(lambda c: core.callee_base(c.key) == "core::iter::Iterator::next")
+                 if vw is root and b.in_cycle(bi) and b.dominates(bi, ibi)]
+        oku = len(pulls) == 1
+        if oku:
+            psw = switches_on(root, lambda d_: d_[0] == "discr" and d_[1][0] == "call" and d_[1][3] == (b.path, pulls[0]))
+            oku = len(psw) == 1
+            if oku:
+                head = opt_arms(psw[0][1])[0]
+                lfsite = d[3]
+                oku = cond.must_pass(root, [head], [(lambda t: t[0] == "call" and t[3] == lfsite, True)], [ibi],
+                                     [pulls[0]] + b.return_blocks())
+        ctx.check(oku, "NFA-LF" if want("NFA-LF") else "STAT-SHADOW", b, "shadow-test-unconditional", b.loc(ibi),
+                  "under leftmost-first EVERY step of the descent tests the cursor state's output before moving on "
+                  "(no further condition may skip the test: a pattern below an already registered prefix must be dropped "
+                  "whether or not its path already exists in the trie)")
         if want("STAT-SHADOW") or want("NFA-LF"):
             ctx.check(before_descend, "STAT-SHADOW", b, "shadow-test-before-node-creation", b.loc(ibi),
                       "the shadow test precedes the child lookup / node creation of the same step")
